@@ -767,6 +767,8 @@ func concID(e AEv) []byte {
 		}
 		return []byte(id)
 	}
+	// "U" stands for a two-byte letter: identifier lengths are byte lengths
+	id = strings.ReplaceAll(id, "U", "é")
 	for len(id) < e.IDLen {
 		id += "x"
 	}
